@@ -15,7 +15,7 @@ vars == <<hist, ps>>
 
 Schema ==
   << DInt("i", "7"), DStr("s", "d"), DIntList("l", <<>>),
-     DSec("sec", {}, << DInt("x", "5") >>),
+     DSec("sec", {}, << DInt("x", "5"), DFunc("include", "include") >>),
      DFunc("include", "include") >>
 
 F(n) == "$R/" \o n \o ".conf"
@@ -31,12 +31,13 @@ FS ==
   (F("f3") :> File(<<TkStr("sec"), TkP("{"), NL(TkStr("x")), TkP("="), TkStr("2"), NL(TkP("}"))>>)) @@
   (F("fe") :> File(<<NL(TkStr("sec")), TkP("{"), NL(TkStr("x")), TkP("="), TkP("="), TkP("}")>>)) @@
   (F("fs") :> File(Inc("fs"))) @@
+  (F("fx") :> File(<<TkStr("x"), TkP("="), TkStr("2")>>)) @@
   (F("nl") :> File(<<NL(NL(TkStr("l"))), TkP("="), TkP("{"), TkStr("1"), NL(TkP(",")), TkStr("2"), TkP("}"), NL(Tk("cmt", "c", 0))>>)) @@
   ("$R/dir" :> [kind |-> "dir", toks |-> <<>>]) @@
   [n \in {F("k" \o ToString(k)) : k \in 1..11} |->
      File(Chain[CHOOSE k \in 1..11 : F("k" \o ToString(k)) = n])]
 
-Names == {F("f1"), F("f2"), F("f3"), F("fe"), F("fs"), F("nl"), F("k1"), F("k2"), "$R/dir", F("none")}
+Names == {F("fx"), F("f1"), F("f2"), F("f3"), F("fe"), F("fs"), F("nl"), F("k1"), F("k2"), "$R/dir", F("none")}
 
 NlUsed == LET G[i \in 0..Len(hist)] == IF i = 0 THEN 0 ELSE G[i-1] + hist[i].nl IN G[Len(hist)]
 NlChoices == IF NlUsed < NlBudget THEN {0, 1} ELSE {0}
